@@ -810,6 +810,15 @@ def run(repo, rep):
             return str(eval_term(ast.parse(t, mode='eval').body, {}))
         except (CannotEvaluate, SyntaxError, Exception):
             return t
+    def _widen(text):
+        import re as _re
+        out_ = text
+        for mname in set(_re.findall(r'self\.(\w+)\(', text)):
+            hm = enc.cls.find_method(mname) if enc.cls is not None else None
+            if hm is not None and repo.is_helper(hm):
+                out_ += ' ' + ' '.join(sorted({norm(x) for x in ast.walk(hm.node) if isinstance(x, ast.Attribute)
+                                               and isinstance(x.value, ast.Name) and x.value.id == 'self'}))
+        return out_
     for ev, s in c.log:
         if True:
             data_seen_on_path = any(e.kind in ('fragment', 'fragment_file') and 'data_set' in e.args[0] for e in s.trail)
@@ -823,7 +832,10 @@ def run(repo, rep):
                     except (CannotEvaluate, SyntaxError, Exception):
                         return t
                 flags = tuple(_fold_flag(x) for x in ev.args[2:4])
-                if 'self.command_set' in src and 'data_set' not in src:
+                # what the fragmented bytes are made of: the term itself, and what the helper methods it calls read of the message
+                # (``b''.join(raw for _, raw in self.encoded_elements())``, a generator over self.command_set)
+                src_w = _widen(src)
+                if 'self.command_set' in src_w and 'data_set' not in src_w:
                     # (how the command set becomes bytes is C08's business: here it is the thing that is fragmented)
                     seen_cmd = True
                     if ev.kind != 'fragment' or flags != tuple(str(x) for x in CMD_FLAGS):
@@ -934,7 +946,7 @@ def run(repo, rep):
         if not (isinstance(le_, ast.List) and len(le_.elts) == 1):
             return None
         pf_ = dict((f_, v_) for t_, f_, v_ in st_.heap if t_ == norm(le_.elts[0]))
-        dv_ = pf_.get('@data_value', '')
+        dv_ = _widen(pf_.get('@data_value', ''))
         return 'data' if 'data_set' in dv_ else 'command' if 'command_set' in dv_ else None
     for s_fin, how_fin in fin:
         seen_data_yield = False
